@@ -78,8 +78,22 @@ class Spec:
         self.raise_props = tuple(props)
         return self
 
-    def assume_only(self):
+    def assume_only(self, why=""):
+        """assumed contract: used at call sites, never verified (listed in every evidence file that uses it)"""
         self.trusted = True
+        self.trusted_why = why
+        return self
+
+    def files(self, fn):
+        """ghost effect: fn(a, r) -> [(cond, report_type_name, {field: value})] reports filed by the call"""
+        self.reports_fn = fn
+        return self
+
+    def report(self, rtype, fields_fn):
+        """the function returns a Report of this type with (at least) these fields"""
+        self.report_type = rtype
+        self.report_fields = fields_fn
+        self.report_props = ()
         return self
 
     # ---- modular use at a call site
@@ -93,11 +107,17 @@ class Spec:
             ex.obligations.append(Obligation(f"{callid}.{self.key.split('::')[1]}.pre.{c.name}", "call-pre",
                                              list(st.hyps), z3_bool(cond), {"callee": self.key}))
             st = st.assume(cond)
+        if getattr(self, "report_type", None) is not None:
+            from .exec import Report
+            rt = ex.world.class_ty("ReportType")
+            return Report(Sym(rt, rt.const(self.report_type)), dict(self.report_fields(a))), st
         ret_ty = self.ret_ty(ex)
         if ret_ty is None:
             raise PyvcUnsupported(f"opaque call to {self.key} without return type")
         res = fresh_value(ret_ty, "ret_" + self.key.split("::")[1].replace(".", "_"))
         for c in self.post:
+            if "reports" in c.fn.__code__.co_varnames[:c.fn.__code__.co_argcount]:
+                continue        # clauses about the ghost log are carried by the `files` effect instead
             st = st.assume(c.fn(a, res))
         return res, st
 
@@ -118,6 +138,7 @@ class SpecRegistry:
         self._lib = {}
         self.lemmas = []        # (id, props, builder(world) -> (hyps, goal))
         self.loop_specs = {}
+        self.virtuals = set()
 
     def spec(self, key, **kw):
         if key in self.specs:
@@ -147,6 +168,73 @@ class SpecRegistry:
             r = fn(recv, args, result)
             out.extend(r if isinstance(r, (list, tuple)) else [r])
         return out
+
+    # ---- behavioural subtyping: one contract for a dynamically dispatched method of a closed union
+    def virtual(self, root, method):
+        """declare that calls `x.method(...)` on a value of union `root` use the members' contracts without forking:
+        the virtual contract is the conjunction of the member contracts, each guarded by its constructor"""
+        self.virtuals.add((root, method))
+
+    def virtual_apply(self, ex, root, method, recv, bound, st, callid):
+        from .exec import Obligation
+        world = ex.world
+        members = world.union_members(root)
+        specs = []
+        for m in members:
+            fn, owner = ex.repo.find_method(m, method)
+            key = f"{ex.repo.classes[owner].path}::{owner}.{method}"
+            if key not in self.specs:
+                raise PyvcUnsupported(f"dynamic dispatch {root}.{method}: member {m} has no contract ({key})")
+            specs.append((m, self.specs[key]))
+        def shared(kind, fn):
+            return all(any(c.fn is fn for c in getattr(sp, kind)) for _, sp in specs)
+        selfname = next(iter(bound))
+        done = set()
+        # preconditions: every member's requires (guarded by its constructor unless shared by all members)
+        for m, sp in specs:
+            b = dict(bound)
+            b[selfname] = Sym(ClassTy(world, m), recv.e)
+            guard = world.recognizer(m)(recv.e)
+            a = NS(b)
+            for c in sp.pre:
+                if shared("pre", c.fn):
+                    if id(c.fn) in done:
+                        continue
+                    done.add(id(c.fn))
+                    cond, hy = c.fn(NS(bound)), list(st.hyps)
+                else:
+                    cond, hy = c.fn(a), list(st.hyps) + [guard]
+                if isinstance(cond, bool) and cond:
+                    continue
+                ex.obligations.append(Obligation(f"{callid}.{root}.{method}[{m}].pre.{c.name}", "call-pre",
+                                                 hy, z3_bool(cond), {"callee": sp.key}))
+        ret_ty = specs[0][1].ret_ty(ex)
+        res = fresh_value(ret_ty, f"ret_{root}_{method}")
+        done = set()
+        for m, sp in specs:
+            b = dict(bound)
+            b[selfname] = Sym(ClassTy(world, m), recv.e)
+            guard = world.recognizer(m)(recv.e)
+            a = NS(b)
+            for c in sp.pre:
+                if shared("pre", c.fn):
+                    if id(c.fn) not in done:
+                        done.add(id(c.fn))
+                        st = st.assume(c.fn(NS(bound)))
+                else:
+                    st = st.assume(z3.Implies(guard, z3_bool(c.fn(a))))
+            for c in sp.post:
+                if "reports" in c.fn.__code__.co_varnames[:c.fn.__code__.co_argcount]:
+                    continue
+                if shared("post", c.fn):
+                    if id(c.fn) not in done:
+                        done.add(id(c.fn))
+                        st = st.assume(c.fn(NS(bound), res))
+                else:
+                    st = st.assume(z3.Implies(guard, z3_bool(c.fn(a, res))))
+            if sp.reports_fn is not None:
+                raise PyvcUnsupported(f"virtual dispatch of {root}.{method}: member {m} files reports (fork needed)")
+        return res, st
 
     def lib(self, name, fn):
         self._lib.setdefault(name, []).append(fn)
